@@ -69,13 +69,23 @@ def write (s : CS) (p : List UInt8) (env : Sni) : CS × Bool :=
     else if env.sniPos = -1 ∧ env.echPos = -1 then ({ s with scramble := false }, false)
     else
       let e : Int := s.buf.length
-      let c0s := env.sniPos + env.sniLen / 2
-      let c0e := env.sniPos + env.sniLen
-      let (c1s, c1e) := if env.echPos > 0 then (env.echPos + 1, min (env.echPos + 1 + 16) e) else (s.c1s, s.c1e)
-      -- slices.SortFunc on two elements: one insertion step, swap iff cmp(cuts[1], cuts[0]) < 0
-      let swap := c1s ≠ invalid ∧ ¬ (c1s > c0s)
-      if swap then ({ s with «end» := e, c0s := c1s, c0e := c1e, c1s := c0s, c1e := c0e }, false)
-      else ({ s with «end» := e, c0s := c0s, c0e := c0e, c1s := c1s, c1e := c1e }, false)
+      -- if sniPos != -1 && sniLen > 0 { cuts[0] = middle of the host name .. its end }
+      let a0s := if env.sniPos ≠ -1 ∧ env.sniLen > 0 then env.sniPos + env.sniLen / 2 else s.c0s
+      let a0e := if env.sniPos ≠ -1 ∧ env.sniLen > 0 then env.sniPos + env.sniLen else s.c0e
+      let a1s := if env.echPos > 0 then env.echPos + 1 else s.c1s
+      let a1e := if env.echPos > 0 then min (env.echPos + 1 + 16) e else s.c1e
+      if a0s = invalid ∧ a1s = invalid then
+        -- neither cut is usable: send the ClientHello unscrambled
+        ({ s with «end» := e, scramble := false, c0s := a0s, c0e := a0e, c1s := a1s, c1e := a1e }, false)
+      else
+        -- keep the valid cut first
+        let b0s := if a0s = invalid then a1s else a0s
+        let b0e := if a0s = invalid then a1e else a0e
+        let b1s := if a0s = invalid then a0s else a1s
+        let b1e := if a0s = invalid then a0e else a1e
+        -- slices.SortFunc on two elements: one insertion step, swap iff cmp(cuts[1], cuts[0]) < 0
+        if b1s ≠ invalid ∧ ¬ (b1s > b0s) then ({ s with «end» := e, c0s := b1s, c0e := b1e, c1s := b0s, c1e := b0e }, false)
+        else ({ s with «end» := e, c0s := b0s, c0e := b0e, c1s := b1s, c1e := b1e }, false)
   else (s, false)
 
 /-- `HasData` -/
